@@ -621,7 +621,10 @@ class TemplateNamespace(Namespace):
             return functools.partial(callable_, self.context)
 
         for k in self.template.module._exports:
-            yield (k, get(k))
+            # a def written inside the <%namespace> tag takes precedence,
+            # as it does for attribute access
+            if k not in self.callables:
+                yield (k, get(k))
 
     def __getattr__(self, key):
         if key in self.callables:
